@@ -71,15 +71,16 @@ void Ctx::checkLeafArgs(int op, const LeafArgs& a, int expectTree, const char* r
         if (oi < 0 || oi >= long(in.size())) { addViolation("argcheck", pre + "index-range", "particle index " + std::to_string(oi) + " out of range"); break; }
         bool same = true;
         double p[4] = {0, 0, 0, 0};
-        for (size_t k = 0; k < a.data.size() && k < 4; ++k) {
+        for (size_t k = 0; k < a.data.size(); ++k) {
+            const double expect = k < 4 ? in[size_t(oi)][k] : extraData(oi, k);
             if (isFloat) {
                 const float f = static_cast<const float*>(a.data[k])[i];
-                p[k] = double(f);
-                if (f != float(in[size_t(oi)][k])) same = false;
+                if (k < 4) p[k] = double(f);
+                if (f != float(expect)) same = false;
             } else {
                 const double d = static_cast<const double*>(a.data[k])[i];
-                p[k] = d;
-                if (std::memcmp(&d, &in[size_t(oi)][k], sizeof(double)) != 0) same = false;
+                if (k < 4) p[k] = d;
+                if (std::memcmp(&d, &expect, sizeof(double)) != 0) same = false;
             }
         }
         if (!same) { addViolation("argcheck", pre + "data-value", "data of particle " + std::to_string(oi) + " differs from the inserted values"); break; }
